@@ -26,7 +26,10 @@ VARIABLES now, last, up, sends, will, hist,
           fed        \* the client is subscribed to a topic on which somebody else publishes all the time: what the broker
                      \* SENDS to a client says nothing about the client being alive - only what it receives from it counts
 \* prior: the connection resumes a stored session (CleanSession 0) whose earlier connection had negotiated another
-\* keep-alive ("long": 60 s): the keep-alive is a matter of the connection, what counts is this CONNECT's value
+\* keep-alive ("long": 60 s): the keep-alive is a matter of the connection, what counts is this CONNECT's value;
+\* "rival": while this connection is up, another one presents the same client identifier (CleanSession 1, no will, long
+\* keep-alive) and stays: the library keeps both connections (no take-over), and whatever the newcomer does to the stored
+\* session, this connection's keep-alive, its end and its will remain its own
 CONSTANT Priors
 VARIABLE prior
 \* deaf: the client never reads what the broker sends it.  A deaf client that is fed has its outgoing ring full before long,
